@@ -213,6 +213,21 @@ func nary(op Op, in []*Term) *Term {
 			return zero
 		}
 	}
+	// not(X) where X is the dual connective's negation target: and(..., a, b, not(and(a,b))) = false
+	for _, t := range out {
+		if t.op == OpNot && t.args[0].op == op && len(t.args[0].args) <= 8 {
+			all := true
+			for _, a := range t.args[0].args {
+				if !seen[a] {
+					all = false
+					break
+				}
+			}
+			if all {
+				return zero
+			}
+		}
+	}
 	// complement detection for positive after negative
 	for _, t := range out {
 		if t.op != OpNot {
@@ -252,6 +267,45 @@ func nary(op Op, in []*Term) *Term {
 	out = out2
 	if len(out) == 1 {
 		return out[0]
+	}
+	// factoring: or(and(C,x), and(C,y)) = and(C, or(x,y))  (and dually); makes diamond joins collapse to the dominator guard
+	if len(out) >= 2 && len(out) <= 16 {
+		conj := func(t *Term) []*Term {
+			if t.op == dual {
+				return t.args
+			}
+			return []*Term{t}
+		}
+		common := map[*Term]int{}
+		for _, t := range out {
+			for _, a := range conj(t) {
+				common[a]++
+			}
+		}
+		var cs []*Term
+		for a, n := range common {
+			if n == len(out) {
+				cs = append(cs, a)
+			}
+		}
+		if len(cs) > 0 {
+			isCommon := map[*Term]bool{}
+			for _, a := range cs {
+				isCommon[a] = true
+			}
+			rests := make([]*Term, 0, len(out))
+			for _, t := range out {
+				var r []*Term
+				for _, a := range conj(t) {
+					if !isCommon[a] {
+						r = append(r, a)
+					}
+				}
+				rests = append(rests, nary(dual, r))
+			}
+			inner := nary(op, rests)
+			return nary(dual, append(cs, inner))
+		}
 	}
 	sort.Slice(out, func(i, j int) bool { return out[i].id < out[j].id })
 	return TS.mk(&Term{op: op, args: out})
@@ -346,6 +400,9 @@ func Eq(a, b *Term) *Term {
 			return TS.False
 		}
 		return Eq(BV(inner.W, a.val), inner)
+	}
+	if (a.op == OpZExt && b.op == OpZExt || a.op == OpSExt && b.op == OpSExt) && a.args[0].W == b.args[0].W {
+		return Eq(a.args[0], b.args[0])
 	}
 	if a.id > b.id {
 		a, b = b, a
@@ -557,6 +614,38 @@ func Cmp(op Op, a, b *Term) *Term {
 	}
 	if a.IsConst() && b.op == OpIte && b.args[1].IsConst() && b.args[2].IsConst() {
 		return Ite(b.args[0], Cmp(op, a, b.args[1]), Cmp(op, a, b.args[2]))
+	}
+	// narrow comparisons over zero-extended operands (a zero-extended value is non-negative in the wider type)
+	uop := op
+	if op == OpSLt {
+		uop = OpULt
+	} else if op == OpSLe {
+		uop = OpULe
+	}
+	if a.op == OpZExt && b.op == OpZExt && a.args[0].W == b.args[0].W {
+		return Cmp(uop, a.args[0], b.args[0])
+	}
+	if a.op == OpZExt && b.IsConst() && a.args[0].W < w {
+		iw := a.args[0].W
+		neg := (op == OpSLt || op == OpSLe) && sext(b.val, w) < 0
+		if neg {
+			return TS.False // non-negative < negative
+		}
+		if b.val > mask(iw) {
+			return TS.True
+		}
+		return Cmp(uop, a.args[0], BV(iw, b.val))
+	}
+	if b.op == OpZExt && a.IsConst() && b.args[0].W < w {
+		iw := b.args[0].W
+		neg := (op == OpSLt || op == OpSLe) && sext(a.val, w) < 0
+		if neg {
+			return TS.True
+		}
+		if a.val > mask(iw) {
+			return TS.False
+		}
+		return Cmp(uop, BV(iw, a.val), b.args[0])
 	}
 	return TS.mk(&Term{op: op, W: 0, args: []*Term{a, b}})
 }
